@@ -30,24 +30,30 @@ Walk(e, i, rd, sc) ==
         eff == IF e.fail_at >= 0 /\ e.fail_at < n THEN SubSeq(e.stream, 1, e.fail_at) ELSE e.stream
         full == Dec(e.shape, e.stream, rd)
         vis == Dec(e.shape, eff, rd)
-        need == IF vis.ok THEN ScratchNeed(vis.tk) ELSE 0
+        needAll == IF vis.ok THEN ScratchNeed(vis.tk) ELSE 0          \* every block read passes through the scratch
+        needBor == IF vis.ok THEN BorrowNeed(vis.tk) ELSE 0           \* only what the result borrows
         avail == e.scratch_len - sc
-        expOk == vis.ok /\ need <= avail
-        lv == IF expOk THEN LET r == ReaderLeaves(vis.tk) IN [j \in 1..Len(r) |-> <<r[j][1] + sc, r[j][2], r[j][3]>>] ELSE <<>>
-        want == IF expOk THEN [ok |-> 1, value |-> vis.v, rd_after |-> vis.pos, rem_off |-> sc + need, rem_len |-> avail - need, leaves |-> lv]
+        mustOk == vis.ok /\ needAll <= avail
+        mayOk == vis.ok /\ needBor <= avail
+        want == IF mustOk THEN [ok |-> 1, value |-> vis.v, rd_after |-> vis.pos, scratch_used |-> <<needBor, needAll>>]
+                ELSE IF mayOk THEN [ok |-> "either", value |-> vis.v, rd_after |-> vis.pos, scratch_used |-> <<needBor, needAll>>]
                 ELSE [ok |-> 0, err |-> IF vis.ok \/ full.ok THEN "End" ELSE vis.err]
         pre == m.rd_before = rd /\ m.sc_off = sc /\ m.sc_len = avail
         good == /\ pre /\ ~IsPanic(m.res)
-                /\ IF expOk THEN /\ m.res.ok = 1 /\ m.res.value = vis.v /\ m.rd_after = vis.pos          \* not one byte more than the message
-                                 /\ m.rem_off = sc + need /\ m.rem_len = avail - need /\ m.leaves = lv
-                   ELSE /\ m.res.ok = 0
+                /\ IF m.res.ok = 1
+                   THEN /\ mayOk /\ m.res.value = vis.v /\ m.rd_after = vis.pos                         \* not one byte more than the message
+                        \* the unused scratch is returned: it follows everything placed, reaches the end of the buffer, and
+                        \* no more was used than one copy of every block read
+                        /\ m.rem_off >= sc /\ m.rem_off - sc <= needAll /\ m.rem_off + m.rem_len = e.scratch_len
+                        /\ ReaderLeavesOK(m.leaves, vis.tk, sc, m.rem_off)
+                   ELSE /\ ~mustOk
                         \* a failing reader or a short scratch must produce an error (the statement names no kind); a damaged
                         \* stream with everything available must fail exactly as slice decoding does
                         /\ ((vis.ok \/ full.ok) \/ vis.err = "Custom" \/ m.res.err = want.err)
                         /\ (full.ok => m.rd_after <= full.pos)                                           \* no over-read on the failing path either
                         /\ m.rd_after <= Len(eff)
     IN IF ~good THEN [bad |-> i, want |-> want]
-       ELSE IF expOk THEN Walk(e, i + 1, vis.pos, sc + need) ELSE [bad |-> (IF i < Len(e.msgs) THEN i + 1 ELSE 0), want |-> "no call after a failure"]
+       ELSE IF m.res.ok = 1 THEN Walk(e, i + 1, vis.pos, m.rem_off) ELSE [bad |-> (IF i < Len(e.msgs) THEN i + 1 ELSE 0), want |-> "no call after a failure"]
 JudgeDe(e) ==
   LET w == Walk(e, 1, 0, 0)
       nonempty == Len(e.msgs) >= 1
